@@ -179,7 +179,7 @@ CLAIMED["C18"] = (
     "non-positive ess_ratio / volume_variation, unknown kernel / resampler, vectorize with blobs, overlapping / out-of-range / non-integer boundary "
     "indices); the constructor must raise and the instrumented likelihood must have seen 0 points. Valid half: every pair (quick) / triple (thorough) "
     "of values of the 13 options + dimension occurs in at least one executed run (coverage verified and reported); each must complete and satisfy the run postconditions. "
-    "A third check (valid_full) runs random complete valid configurations from vlib.cfggen, which reach higher-order combinations with high probability.",
+    "A third check (valid_full) runs random complete valid configurations from vlib.cfggen (ten blob forms, empty index lists, default n_particles, a real 2-worker pool), which reach higher-order combinations with high probability; half of them make one more public call (sample()) after the completed run.",
     "t-wise coverage, not the full product (~1e6 combinations); interactions of 4+ options are only sampled. Undocumented values are not asserted either way.",
     "DESIGN.md §2 C18",
 )
